@@ -35,7 +35,8 @@ ASSUMPTIONS = [
 ]
 PROBES = ["restart_after_other_use", "feature_all_steps", "resim_old_buffers_checked", "shared_underlier_resim",
           "prev_output_corrupted_then_hedged", "model_raise_then_hedged", "hedger_cast", "listed_hedge",
-          "lazy_model", "requires_grad_flag_flipped", "kept_feature_reused", "listed_quote_vs_fresh_pricer"]
+          "lazy_model", "requires_grad_flag_flipped", "kept_feature_reused", "listed_quote_vs_fresh_pricer", "clone_opposite_grad_mode", "clone_opposite_module_mode",
+          "kept_bs_module_reused"]
 
 
 class SimFault(Exception):
@@ -610,8 +611,17 @@ def _do_compute(world, op, stats, hist, seq, used, tainted, pending_raise):
     # F3: clone from durable state BEFORE the live call (fit changes parameters)
     do_restart = op.get("restart")
     clone = world.fresh_clone_hedger(hid) if do_restart else None
+    clone_op = op
     if clone is not None:
-        clone.train(h.training)
+        # none of the generated models has mode-dependent layers, so the module mode and the ambient grad mode must not
+        # matter for the VALUES either: the clone runs in the opposite mode / grad mode in half of the comparisons
+        flip = op["torch_seed"] % 4
+        clone.train(h.training if flip in (0, 1) else (not h.training))
+        if flip in (1, 3) and k != "fit":
+            clone_op = dict(op, grad_mode="no_grad" if op.get("grad_mode") in (None, "enable_grad") else "enable_grad")
+            stats.probe("clone_opposite_grad_mode")
+        if flip in (2, 3):
+            stats.probe("clone_opposite_module_mode")
     refs, snap = world.buffer_refs(), world.snapshot()
     rec = h.model if isinstance(h.model, RecModel) else None
     inject = pending_raise.pop(hid, None)
@@ -663,7 +673,7 @@ def _do_compute(world, op, stats, hist, seq, used, tainted, pending_raise):
     if do_restart:
         had_other = any(u != use for u in used[hid]) or tainted[hid]
         try:
-            res2 = _hedger_call(world, clone, op)
+            res2 = _hedger_call(world, clone, clone_op)
         except Exception as e:
             raise Inconclusive("fresh clone raised: %r" % (e,))
         finally:
@@ -742,8 +752,18 @@ def _do_quant(world, op, stats, hist, seq):
                 stats.probe("feature_all_steps")
         elif k == "bs_bound":
             d = world.derivatives[op["derivative"]]
-            m = pfn.BlackScholes(d)
+            kept = world.__dict__.setdefault("_kept_bs", {})
+            fresh_m = pfn.BlackScholes(d)
+            m = kept.setdefault(op["derivative"], fresh_m)
             site = "bs_bound:%s.%s" % (type(m).__name__, op["method"])
+            if m is not fresh_m and op["method"] != "forward":
+                # a module object created before the underlier was re-simulated must price the current series
+                a_ = getattr(m, op["method"])().detach()
+                b_ = getattr(fresh_m, op["method"])().detach()
+                stats.checks += 1
+                stats.probe("kept_bs_module_reused")
+                if not bit_equal(a_, b_):
+                    raise Violation(ID, "history_dependent", site, {"kept_module": a_, "fresh_module": b_}, seq)
             if op["method"] == "forward":
                 from pfhedge.features import FeatureList
                 x = FeatureList(m.inputs()).of(d).get(None)
